@@ -32,12 +32,14 @@ pub mod verif_identity
         S { len, b }
     }
 
+    /*  bytes are pushed onto the underlying Vec<u8> (all ASCII): String::push(char) on a symbolic
+        char makes CBMC explore the multi-byte UTF-8 encoder and a symbolic-length extend */
     fn mk(s : &S) -> String
     {
-        let mut r = String::with_capacity(2);
-        r.push(s.b[0] as char);
-        if s.len == 2 { r.push(s.b[1] as char); }
-        r
+        let mut v : Vec<u8> = Vec::with_capacity(2);
+        v.push(s.b[0]);
+        if s.len == 2 { v.push(s.b[1]); }
+        unsafe { String::from_utf8_unchecked(v) }
     }
 
     fn eq(a : &S, b : &S) -> bool
@@ -95,45 +97,125 @@ pub mod verif_identity
         a.n == b.n && (a.n < 1 || eq(&a.s[0], &b.s[0])) && (a.n < 2 || eq(&a.s[1], &b.s[1]))
     }
 
-    fn stream_of(t : &L, s : &L, c : &L) -> ([u8; crypto::RCAP], usize)
+    /*  Ticket::from_strings called directly (no is_sorted / sort in front) */
+    fn go_ser(t : &L, s : &L, c : &L, nt : usize, ns : usize, nc : usize) -> ([u8; crypto::RCAP], usize)
     {
-        if t.n == 1
+        let (tv, sv, cv) = (mkv_n(t, nt), mkv_n(s, ns), mkv_n(c, nc));
+        let ticket = Ticket::from_strings(&tv, &sv, &cv);
+        std::mem::forget(tv);
+        std::mem::forget(sv);
+        std::mem::forget(cv);
+        std::mem::forget(ticket);
+        unsafe { (crypto::LAST_STREAM, crypto::LAST_LEN) }
+    }
+
+    fn same_streams(st1 : &[u8; crypto::RCAP], n1 : usize, st2 : &[u8; crypto::RCAP], n2 : usize) -> bool
+    {
+        /*  the recorder zero-fills beyond the stream's length: equal streams = equal length and
+            equal 48-byte records, compared as six 64-bit words (no loop) */
+        let w = |x : &[u8; crypto::RCAP], k : usize| -> u64
         {
-            if s.n == 0 { if c.n == 1 { go(t, s, c, 1, 0, 1) } else { go(t, s, c, 1, 0, 2) } }
-            else if s.n == 1 { if c.n == 1 { go(t, s, c, 1, 1, 1) } else { go(t, s, c, 1, 1, 2) } }
-            else { if c.n == 1 { go(t, s, c, 1, 2, 1) } else { go(t, s, c, 1, 2, 2) } }
+            u64::from_le_bytes([x[k], x[k+1], x[k+2], x[k+3], x[k+4], x[k+5], x[k+6], x[k+7]])
+        };
+        n1 == n2
+            && w(st1, 0) == w(st2, 0) && w(st1, 8) == w(st2, 8) && w(st1, 16) == w(st2, 16)
+            && w(st1, 24) == w(st2, 24) && w(st1, 32) == w(st2, 32) && w(st1, 40) == w(st2, 40)
+    }
+
+    /*  (i) the serialisation hashed by Ticket::from_strings is injective: two (targets, sources,
+        command) triples of the given shapes give the same stream iff they are equal */
+    fn serialisation_injective(a : (usize, usize, usize), b : (usize, usize, usize))
+    {
+        unsafe { crypto::RECORD = true; }
+        let (t1, s1, c1) = (any_l_n(a.0), any_l_n(a.1), any_l_n(a.2));
+        let (t2, s2, c2) = (any_l_n(b.0), any_l_n(b.1), any_l_n(b.2));
+        let (st1, n1) = go_ser(&t1, &s1, &c1, a.0, a.1, a.2);
+        let (st2, n2) = go_ser(&t2, &s2, &c2, b.0, b.1, b.2);
+        let same = eq_l(&t1, &t2) && eq_l(&s1, &s2) && eq_l(&c1, &c2);
+        kani::cover!(!same && n1 == n2, "different triples whose streams have equal length (a near miss)");
+        if same
+        {
+            assert!(same_streams(&st1, n1, &st2, n2), "[C13] the identity of a rule is not a function of its targets, sources and command");
         }
         else
         {
-            if s.n == 0 { if c.n == 1 { go(t, s, c, 2, 0, 1) } else { go(t, s, c, 2, 0, 2) } }
-            else if s.n == 1 { if c.n == 1 { go(t, s, c, 2, 1, 1) } else { go(t, s, c, 2, 1, 2) } }
-            else { if c.n == 1 { go(t, s, c, 2, 2, 1) } else { go(t, s, c, 2, 2, 2) } }
+            assert!(!same_streams(&st1, n1, &st2, n2), "[C13] two different rules get the same identity (the hashed serialisation is ambiguous or drops a field)");
         }
     }
 
-    #[kani::proof]
-    #[kani::unwind(4)]
-    #[kani::stub(alloc::alloc::dealloc, crate::stubs::dealloc_noop)]
-    #[kani::stub(<std::string::String as Clone>::clone, crate::stubs::string_clone_short)]
-    fn identity_pair()
+    /*  (ii) Rule::get_ticket hashes the canonical form: whatever order the targets and sources are
+        written in, the stream is that of from_strings(sorted targets, sorted sources, command) */
+    fn identity_is_canonical(a : (usize, usize, usize))
     {
         unsafe { crypto::RECORD = true; }
-        let (t1, s1, c1) = (any_l(1), any_l(0), any_l(1));
-        let (t2, s2, c2) = (any_l(1), any_l(0), any_l(1));
-        let (st1, n1) = stream_of(&t1, &s1, &c1);
-        let (st2, n2) = stream_of(&t2, &s2, &c2);
+        let (t, s, c) = (any_l_n(a.0), any_l_n(a.1), any_l_n(a.2));
+        kani::assume(a.0 < 2 || !eq(&t.s[0], &t.s[1]));
+        kani::assume(a.1 < 2 || !eq(&s.s[0], &s.s[1]));
+        let (st1, n1) = go(&t, &s, &c, a.0, a.1, a.2);
+        let (st2, n2) = go_ser(&sorted(&t), &sorted(&s), &c, a.0, a.1, a.2);
+        kani::cover!(a.0 < 2 || !le(&t.s[0], &t.s[1]), "targets written out of order (if there are two)");
+        kani::cover!(a.1 < 2 || !le(&s.s[0], &s.s[1]), "sources written out of order (if there are two)");
+        assert!(same_streams(&st1, n1, &st2, n2), "[C13] re-ordering the target or source lines of a rule changes its identity (or the identity is not computed from the sorted lists)");
+    }
+
+    fn any_l_n(n : usize) -> L
+    {
+        L { n, s : [any_s(), any_s()] }
+    }
+
+    /*  two rules of CONCRETE shapes (numbers of targets / sources / command lines), symbolic strings */
+    /*  mode 0: two arbitrary rules.  mode 1: both written in canonical (sorted) order.  mode 2: the
+        second rule is the first with its two targets and its two sources swapped.  Modes 1 and 2
+        together give mode 0 for pairs of rules that both have two targets or two sources, at the
+        price of one trip through get_ticket's clone-and-sort path instead of two. */
+    fn identity_shapes(a : (usize, usize, usize), b : (usize, usize, usize))
+    {
+        identity_shapes_mode(a, b, 0);
+    }
+
+    fn identity_shapes_mode(a : (usize, usize, usize), b : (usize, usize, usize), mode : u8)
+    {
+        unsafe { crypto::RECORD = true; }
+        let (t1, s1, c1) = (any_l_n(a.0), any_l_n(a.1), any_l_n(a.2));
+        let (mut t2, mut s2, mut c2) = (any_l_n(b.0), any_l_n(b.1), any_l_n(b.2));
+        if mode == 1
+        {
+            kani::assume(a.0 < 2 || le(&t1.s[0], &t1.s[1]));
+            kani::assume(a.1 < 2 || le(&s1.s[0], &s1.s[1]));
+            kani::assume(b.0 < 2 || le(&t2.s[0], &t2.s[1]));
+            kani::assume(b.1 < 2 || le(&s2.s[0], &s2.s[1]));
+        }
+        if mode == 2
+        {
+            kani::assume(a.0 < 2 || le(&t1.s[0], &t1.s[1]));
+            kani::assume(a.1 < 2 || le(&s1.s[0], &s1.s[1]));
+            t2 = L { n : t1.n, s : [t1.s[1], t1.s[0]] };
+            if a.0 < 2 { t2 = t1; }
+            s2 = L { n : s1.n, s : [s1.s[1], s1.s[0]] };
+            if a.1 < 2 { s2 = s1; }
+            c2 = c1;
+        }
+        /*  within a rule the parser merges repeated paths */
+        kani::assume(a.0 < 2 || !eq(&t1.s[0], &t1.s[1]));
+        kani::assume(a.1 < 2 || !eq(&s1.s[0], &s1.s[1]));
+        kani::assume(b.0 < 2 || !eq(&t2.s[0], &t2.s[1]));
+        kani::assume(b.1 < 2 || !eq(&s2.s[0], &s2.s[1]));
+        let (st1, n1) = go(&t1, &s1, &c1, a.0, a.1, a.2);
+        let (st2, n2) = go(&t2, &s2, &c2, b.0, b.1, b.2);
         /*  the recorder zero-fills beyond the stream's length, so equal streams = equal length and
             equal 48-byte records; compared as six 64-bit words (no loop) */
-        let w = |a : &[u8; crypto::RCAP], k : usize| -> u64
+        let w = |x : &[u8; crypto::RCAP], k : usize| -> u64
         {
-            u64::from_le_bytes([a[k], a[k+1], a[k+2], a[k+3], a[k+4], a[k+5], a[k+6], a[k+7]])
+            u64::from_le_bytes([x[k], x[k+1], x[k+2], x[k+3], x[k+4], x[k+5], x[k+6], x[k+7]])
         };
         let same_stream = n1 == n2
             && w(&st1, 0) == w(&st2, 0) && w(&st1, 8) == w(&st2, 8) && w(&st1, 16) == w(&st2, 16)
             && w(&st1, 24) == w(&st2, 24) && w(&st1, 32) == w(&st2, 32) && w(&st1, 40) == w(&st2, 40);
         let same_rule = eq_l(&sorted(&t1), &sorted(&t2)) && eq_l(&sorted(&s1), &sorted(&s2)) && eq_l(&c1, &c2);
-        kani::cover!(same_rule && !eq_l(&t1, &t2), "same rule written with its targets in another order");
-        kani::cover!(!same_rule && n1 == n2, "different rules with streams of equal length");
+        let same_shape = a.0 == b.0 && a.1 == b.1 && a.2 == b.2;
+        kani::cover!(if same_shape { !same_rule && n1 == n2 } else { n1 == n2 }, "different rules whose streams have equal length (a near miss)");
+        kani::cover!(!same_shape || same_rule, "the same rule twice (same-shape pairs only)");
+        if mode == 2 { assert!(same_rule, "harness: a swapped spelling is the same rule"); }
         if same_rule
         {
             assert!(same_stream, "[C13] two spellings of one rule (same targets, sources and command; lines in another order) get different identities");
@@ -143,4 +225,79 @@ pub mod verif_identity
             assert!(!same_stream, "[C13] two different rules get the same identity (the hashed serialisation is ambiguous or drops a field)");
         }
     }
+
+    macro_rules! identity_harness
+    {
+        ($name:ident, $a:expr, $b:expr) =>
+        {
+            #[kani::proof]
+            #[kani::unwind(4)]
+            #[kani::stub(alloc::alloc::dealloc, crate::stubs::dealloc_noop)]
+            #[kani::stub(<std::string::String as Clone>::clone, crate::stubs::string_clone_short)]
+            fn $name() { identity_shapes($a, $b); }
+        };
+    }
+
+    macro_rules! identity_harness_mode
+    {
+        ($name:ident, $a:expr, $b:expr, $mode:literal) =>
+        {
+            #[kani::proof]
+            #[kani::unwind(4)]
+            #[kani::stub(alloc::alloc::dealloc, crate::stubs::dealloc_noop)]
+            #[kani::stub(<std::string::String as Clone>::clone, crate::stubs::string_clone_short)]
+            fn $name() { identity_shapes_mode($a, $b, $mode); }
+        };
+    }
+
+    macro_rules! ser_harness
+    {
+        ($name:ident, $a:expr, $b:expr) =>
+        {
+            #[kani::proof]
+            #[kani::unwind(4)]
+            #[kani::stub(alloc::alloc::dealloc, crate::stubs::dealloc_noop)]
+            fn $name() { serialisation_injective($a, $b); }
+        };
+    }
+    ser_harness!(ser_222_222, (2, 2, 2), (2, 2, 2));
+    ser_harness!(ser_102_102, (1, 0, 2), (1, 0, 2));
+    ser_harness!(ser_120_111, (1, 2, 0), (1, 1, 1));
+    ser_harness!(ser_212_221, (2, 1, 2), (2, 2, 1));
+    ser_harness!(ser_122_212, (1, 2, 2), (2, 1, 2));
+    ser_harness!(ser_202_211, (2, 0, 2), (2, 1, 1));
+
+    #[kani::proof]
+    #[kani::unwind(4)]
+    #[kani::stub(alloc::alloc::dealloc, crate::stubs::dealloc_noop)]
+    #[kani::stub(<std::string::String as Clone>::clone, crate::stubs::string_clone_short)]
+    fn canon_221() { identity_is_canonical((2, 2, 1)); }
+
+    #[kani::proof]
+    #[kani::unwind(4)]
+    #[kani::stub(alloc::alloc::dealloc, crate::stubs::dealloc_noop)]
+    #[kani::stub(<std::string::String as Clone>::clone, crate::stubs::string_clone_short)]
+    fn canon_211() { identity_is_canonical((2, 1, 1)); }
+
+    #[kani::proof]
+    #[kani::unwind(4)]
+    #[kani::stub(alloc::alloc::dealloc, crate::stubs::dealloc_noop)]
+    #[kani::stub(<std::string::String as Clone>::clone, crate::stubs::string_clone_short)]
+    fn canon_121() { identity_is_canonical((1, 2, 1)); }
+
+    /*  same shape with two targets / two sources on both sides: canonical spellings + swapped spelling */
+    identity_harness_mode!(identity_201_201_sorted, (2, 0, 1), (2, 0, 1), 1);
+    identity_harness_mode!(identity_201_swapped, (2, 0, 1), (2, 0, 1), 2);
+    identity_harness_mode!(identity_121_121_sorted, (1, 2, 1), (1, 2, 1), 1);
+    identity_harness_mode!(identity_121_swapped, (1, 2, 1), (1, 2, 1), 2);
+    /*  same shape: one-character differences, split/merged strings */
+    identity_harness!(identity_102_102, (1, 0, 2), (1, 0, 2));
+    /*  a string moved across a section boundary */
+    identity_harness!(identity_201_111, (2, 0, 1), (1, 1, 1));
+    identity_harness!(identity_121_112, (1, 2, 1), (1, 1, 2));
+    identity_harness!(identity_211_121, (2, 1, 1), (1, 2, 1));
+    /*  split / merged command lines, added / removed source */
+    identity_harness!(identity_112_111, (1, 1, 2), (1, 1, 1));
+    identity_harness!(identity_102_111, (1, 0, 2), (1, 1, 1));
+    identity_harness!(identity_111_101, (1, 1, 1), (1, 0, 1));
 }
